@@ -421,7 +421,7 @@ func runC14(c *Ctx, r *Rec) {
 		case len(env.problems) == 0 && onlyForeign(undec):
 			r.skip("D1-len", c.fdName(fd), c.pos(fd.Pos()), strings.Join(undec, "; "))
 		case len(env.problems)+len(undec) > 0:
-			r.undecided("D1-len", c.fdName(fd), c.pos(fd.Pos()), strings.Join(append(env.problems, undec...), "; "))
+			r.skip("D1-len", c.fdName(fd), c.pos(fd.Pos()), "outside the vocabulary of the interpreter: "+strings.Join(append(env.problems, undec...), "; "))
 		case len(viol) > 0:
 			r.fail("D1-len", c.fdName(fd), c.pos(fd.Pos()), strings.Join(viol, " | "))
 		default:
